@@ -367,7 +367,7 @@ def check_c16(pid, tier, seed, replay):
         v.cov["distinct_nontrivial"] = sum(n for k, n in cov.items() if k.split(".", 2)[2].split(":")[0] in state_dep)
         v.cov["distinct_classes"] = len(cov)
         v.cov["rule"] = ("behaviours of Vauth.tla executed against the real application, one real transaction per operation: B1 = every "
-                         "operation of the alphabet (3 submitters x 5 targets x 12 signature kinds; 3 vesting kinds x 5 targets x 7 routes) after "
+                         "operation of the alphabet (3 submitters x 5 targets x 12 signature kinds; 3 vesting kinds x 5 targets x 25 routes incl. 18 sibling routes) after "
                          "each of 4 prefixes; B2 = TLC -simulate behaviours; distinct_nontrivial = operations executed on the real "
                          "application whose admitted outcome depends on the state built by earlier operations of the behaviour (already proven, "
                          "submitter exhausted, proven target, account exists, proof in the same tx), counted by TraceVauth per class")
@@ -375,15 +375,18 @@ def check_c16(pid, tier, seed, replay):
         v.cov["samples"] = [json.loads(x) for x in lines[1:3]] + [json.loads(lines[len(lines) // 2])]
         # binding self-test: (1) pretend the submitter kept his unit, (2) pretend a stored proof changed. The original and the
         # corrupted behaviour are judged in one TLC run; the corrupted line must break a law the original line does not.
-        k = next(i for i, x in enumerate(lines) if '"ev":"Op"' in x and '"out":"ok"' in x and '"op":"Submit"' in x)
+        badl = {ln for ln, _, _ in errs}  # prefer lines that break no law by themselves (the corruption must be what TLC reports)
+        cands = [i for i, x in enumerate(lines) if '"ev":"Op"' in x and '"out":"ok"' in x and '"op":"Submit"' in x]
+        k = next((i for i in cands if i + 1 not in badl), cands[0])
         a, b_ = behaviour_of_line(lines, k + 1)
         t0 = list(lines[a:b_ + 1])
         t1 = list(t0)
         e = json.loads(t1[k - a])
         e["st"]["q"][e["op"]["sub"]] += 1
         t1[k - a] = json.dumps(e)
-        k2 = next(i for i, x in enumerate(lines) if '"ev":"Op"' in x and '"op":"Create"' in x and json.loads(x)["i"] >= 2
-                  and "valid" in json.loads(lines[i - 1])["st"]["proof"].values())
+        cands = [i for i, x in enumerate(lines) if '"ev":"Op"' in x and '"op":"Create"' in x and json.loads(x)["i"] >= 2
+                 and "valid" in json.loads(lines[i - 1])["st"]["proof"].values()]
+        k2 = next((i for i in cands if i + 1 not in badl), cands[0])
         a2, b2_ = behaviour_of_line(lines, k2 + 1)
         t2o = list(lines[a2:b2_ + 1])
         t2 = list(t2o)
@@ -405,7 +408,8 @@ def check_c16(pid, tier, seed, replay):
             "amounts touch; submitters hold enough remainder that fees never borrow from the units",
             "signature kinds are a finite menu (genuine: canonical, malleated, upper-case hex, v+27; forged: other key, other message, random, "
             "64 / 66 bytes, missing prefix, non-hex, empty) - not all byte strings",
-            "routes of a vesting-creation message: top-level, MsgExec depth 1..4, MsgGrant, same transaction as the proof; wrappers other than "
+            "routes of a vesting-creation message: top-level, MsgExec depth 1..4, MsgExec depth 1..3 listed after harmless siblings (send, "
+            "MsgExec{send}) at top level or inside an outer MsgExec, MsgGrant, same transaction as the proof; wrappers other than "
             "authz are outside the property's text",
             "genesis import/export of proofs is C18's subject, not covered here",
         ]
